@@ -29,7 +29,7 @@ COMPONENTS = {
 ASSUMPTIONS = ["events with created_at equal to since/until may be returned or not",
                "only filters with at least one condition besides limit are generated in most runs; the "
                "bare {} / {limit:n} filter is a listed known finding (deliberate no-range-scan policy)"]
-SHRINK = [["ops"]]
+SHRINK = [["ops"], ["ops", "*", 1]]
 
 
 def gen(rng, knobs):
